@@ -68,6 +68,10 @@ enum Kind {
     FromPartsConst,
     FromInt,
     FromF64,
+    /// text `n/d` (not reduced) through from_str / from_str_radix / from_str_with_radix_prefix
+    Parse,
+    /// the same text through the serde decoder (json)
+    Decode,
     // moves between the pools
     Relax,
     Canonicalize,
@@ -78,7 +82,7 @@ use Kind::*;
 /// weighted table (repetition = weight); simplest first, `gen::pick` maps monotonically
 const KIND_TABLE: &[Kind] = &[
     Add, Add, Add, Add, Sub, Sub, Sub, Sub, Mul, Mul, Mul, Mul, Div, Div, Div, Rem, Rem, RemEuclid, DivEuclid, DivRemEuclid, AddInt, AddInt, SubInt, SubInt,
-    MulInt, MulInt, DivInt, DivInt, Pow, Sqr, Cubic, Inv, Inv, Neg, Abs, Signum, MulSign, Fract, SplitAtPoint, CloneFrom, FromParts, FromParts,
+    MulInt, MulInt, DivInt, DivInt, Pow, Sqr, Cubic, Inv, Inv, Neg, Abs, Signum, MulSign, Fract, SplitAtPoint, CloneFrom, FromParts, FromParts, Parse, Parse, Decode,
     FromPartsSigned, FromPartsConst, FromInt, FromF64, Relax, Relax, Canonicalize, Canonicalize, AsRelaxed,
 ];
 
@@ -108,6 +112,8 @@ fn kind_label(k: Kind) -> &'static str {
         SplitAtPoint => "op:split_at_point",
         CloneFrom => "op:clone_from",
         FromParts => "op:from_parts",
+        Parse => "op:parse text",
+        Decode => "op:serde decode",
         FromPartsSigned => "op:from_parts_signed",
         FromPartsConst => "op:from_parts_const",
         FromInt => "op:From<int>",
@@ -250,10 +256,10 @@ fn build_op(raw: &RawOp, f: &[BigInt]) -> Op {
     let mut op = Op { kind, relaxed: *relaxed, dst: *dst, a: *a, b: *b, form: *form, int, nat, derive: *derive, unsigned: *unsigned, int_left: *int_left, flag: *flag, exp: *exp };
     // fields the kind does not read are cleared: replay files stay readable and digests distinct
     let int_op = matches!(kind, AddInt | SubInt | MulInt | DivInt);
-    if !(int_op || matches!(kind, FromParts | FromPartsSigned | FromPartsConst | FromInt | FromF64)) {
+    if !(int_op || matches!(kind, FromParts | FromPartsSigned | FromPartsConst | FromInt | FromF64 | Parse | Decode)) {
         op.int = Int::default();
     }
-    if !matches!(kind, FromParts | FromPartsSigned | FromPartsConst) {
+    if !matches!(kind, FromParts | FromPartsSigned | FromPartsConst | Parse | Decode) {
         op.nat = Nat::default();
     }
     if !int_op {
@@ -481,6 +487,34 @@ macro_rules! impl_rt {
                         t
                     }
                     FromParts => <$T>::from_parts(r.pn.clone(), r.pd.clone()),
+                    Parse => {
+                        let radix = [10u32, 2, 16, 36, 7, 10][r.form as usize % 6];
+                        let text = format!("{}/{}", r.pn.in_radix(radix), r.pd.in_radix(radix));
+                        let got = match (r.form / 6) % 3 {
+                            0 => <$T>::from_str_radix(&text, radix).ok(),
+                            1 if radix == 10 => <$T as std::str::FromStr>::from_str(&text).ok(),
+                            1 => <$T>::from_str_radix(&text, radix).ok(),
+                            _ => {
+                                // radix prefixes on both parts (2, 16) or none (10)
+                                let pre = match radix { 2 => "0b", 16 => "0x", _ => "" };
+                                if radix == 2 || radix == 16 || radix == 10 {
+                                    let (sg, mag) = (if r.pn.sign() == Sign::Negative { "-" } else { "" }, r.pn.clone() * r.pn.sign());
+                                    let t2 = format!("{sg}{pre}{}/{pre}{}", mag.in_radix(radix), r.pd.in_radix(radix));
+                                    <$T>::from_str_with_radix_prefix(&t2).ok().map(|v| v.0)
+                                } else {
+                                    <$T>::from_str_radix(&text, radix).ok()
+                                }
+                            }
+                        };
+                        match got {
+                            Some(v) => v,
+                            None => return Prod::Nothing,
+                        }
+                    }
+                    Decode => match serde_json::from_str::<$T>(&format!("\"{}/{}\"", r.pn, r.pd)) {
+                        Ok(v) => v,
+                        Err(_) => return Prod::Nothing,
+                    },
                     FromPartsSigned => <$T>::from_parts_signed(r.pn.clone(), r.pds.clone()),
                     FromPartsConst => <$T>::from_parts_const(r.sign, r.cn, r.cd),
                     FromInt => match r.form % 6 {
@@ -651,6 +685,8 @@ fn expect(r: &R, ma: &Q, mb: &Q, iv: &BigInt, pn: &BigInt, pd: &BigInt) -> Exp {
         CloneFrom => Exp::Val(ma.clone()),
         FromParts | FromPartsSigned if pd.is_zero() => Exp::Panic,
         FromParts | FromPartsSigned => Exp::Val(Q::new(pn.clone(), pd.clone())),
+        Parse | Decode if pd.is_zero() => Exp::ConvErr,
+        Parse | Decode => Exp::Val(Q::new(pn.clone(), pd.clone())),
         FromPartsConst if r.cd == 0 => Exp::Panic,
         FromPartsConst => Exp::Val(Q::new(signed_const(r), BigInt::from(r.cd))),
         FromInt => Exp::Val(qint(&from_int_model(r, iv))),
@@ -688,7 +724,7 @@ fn bound_of(r: &R, a: (u64, u64), b: (u64, u64), ib: u64, pn: u64, pd: u64) -> (
         Neg | Abs | MulSign | CloneFrom => (na, da),
         Signum => (1, 1),
         Fract | SplitAtPoint => (da, da),
-        FromParts | FromPartsSigned => (pn, pd),
+        FromParts | FromPartsSigned | Parse | Decode => (pn, pd),
         FromPartsConst => (128, 128),
         FromInt => (ib.max(128), 1),
         FromF64 => (1100, 1100),
@@ -741,7 +777,7 @@ fn classify(out: &mut Out, kind: Kind, int_left: bool, pa: &(BigInt, BigInt), pb
             out.label(if nt { "int-op:gcd(num, int) non-trivial" } else { "int-op:gcd trivial" });
             out.nontrivial(nt);
         }
-        FromParts | FromPartsSigned | FromPartsConst if !pd.is_zero() => {
+        FromParts | FromPartsSigned | FromPartsConst | Parse | Decode if !pd.is_zero() => {
             let nt = !coprime(pn, pd);
             out.label(if nt { "construct:reducible parts" } else { "construct:coprime parts" });
             out.nontrivial(nt);
